@@ -566,3 +566,20 @@ package s3mem
 //@                             gofakes3.mCommon(PF, ks(L, i)), !inP(ret0, gofakes3.mPart(PF, ks(L, i))))))
 //@ ensures [C10]     same:   unchanged()
 //@ ensures           lock:   db.lock == 0
+
+// C05: a version-qualified entry of a multi-delete removes (at most) that version: when it names a version
+// that is not the key's current one, the current version stays where it is - whatever the bucket's
+// versioning state (Enabled, Suspended or never enabled)
+//@ func (*Backend).DeleteMultiVersions
+//@ props C05 C02 C09
+//@ requires          inv:    dbInv(db) && db.lock == 0
+//@ loop 1 invariant  binv:   bucket != nil && bucket == bkt(db, bucketName) && bucketInv(bucket) && idsIssued(bucket) && db.lock == -1 &&
+//@                             -1 <= rangeindex && rangeindex < len(objects)
+// (inside old() the loop counter still has its value from before this iteration: the entry is objects[rangeindex + 1] there)
+//@ loop 1 backstep [C05] version: imp(objects[rangeindex].VersionID != "" && old(hasObj(bucket, objects[rangeindex + 1].Key)) &&
+//@                             old(objAt(bucket, objects[rangeindex + 1].Key).data.versionID) != gofakes3.VersionID(objects[rangeindex].VersionID),
+//@                             hasObj(bucket, objects[rangeindex].Key) &&
+//@                             objAt(bucket, objects[rangeindex].Key).data == old(objAt(bucket, objects[rangeindex + 1].Key).data))
+//@ uses version: inv.binv -hints -calls call.rmVersion.other call.rmVersion.archived call.rmVersion.noerr call.rm.noerr
+//@ ensures [C02]     nobucket: imp(!old(hasBucket(db, bucketName)), errcode(err) == gofakes3.ErrNoSuchBucket)
+//@ ensures           lock:   db.lock == 0
